@@ -71,6 +71,9 @@ type HeldView struct {
 type World struct {
 	Dir                                           string
 	PcapDir, IndexDir, SnapDir, StateDir, ConvDir string
+	// SnapGone: the fault snapdir-gone lasts; SnapMissed: imports whose body ran meanwhile
+	SnapGone   bool
+	SnapMissed []string
 	// DoubleJobs: the service started a job of a kind while another job of that kind was in flight
 	DoubleJobs []string
 	// ConvGen: how often the executable of a converter was replaced by another one (part of what it outputs)
@@ -326,6 +329,16 @@ func (w *World) point(name string, args []any) {
 		}
 		j.Gate = "done"
 		j.Args = args
+		if kind == "import" && w.SnapGone {
+			// this import could not save its reassembly snapshots: what the snapshot directory holds is older than what
+			// the importer has in memory (part of the state: a restart, and the importer's bookkeeping of its files,
+			// depend on it)
+			what := "?"
+			if len(args) != 0 {
+				what = fmt.Sprint(args[0])
+			}
+			w.SnapMissed = append(w.SnapMissed, what)
+		}
 		j.release = make(chan struct{})
 		w.cond.Broadcast()
 		w.mu.Unlock()
@@ -580,6 +593,11 @@ func (w *World) Settle() error {
 			sort.Strings(phantom)
 			if len(phantom) != 0 && !spurious && len(elsewhere) == 0 {
 				return fmt.Errorf("%w: for 20 s the service reports %v as queued / running (status %+v) while no such job exists (parked jobs: %v)", ErrPhantomWork, phantom, st, w.ParkedNames())
+			}
+			if len(phantom) == 0 && spurious && len(elsewhere) == 0 {
+				// the other way round: a job of this world's own manager is in flight and the service reports no work of
+				// its kind (its queue / flag was cleared by something else - a second job of the kind, for instance)
+				return fmt.Errorf("%w (here: a job WITHOUT the work being claimed): for 20 s jobs %v are in flight while the service reports no work of that kind (status %+v)", ErrPhantomWork, w.ParkedNames(), st)
 			}
 			return fmt.Errorf("service did not settle: status %+v, parked %v; own manager %p, managers registered for this world %v %v", st, w.ParkedNames(), w.Mgr, mine, elsewhere)
 		}
